@@ -97,6 +97,9 @@ class Engine:
         self.known = {}
         self.key_syms = []
         self.hash_memo = {}
+        self.fp_memo = {}
+        self.fresh_mode = False
+        self._fresh_model = None
         self.divs = {}
         self.divq = {}
         self.approx = False
@@ -116,14 +119,69 @@ class Engine:
         self.known = {}
         self.key_syms = []
         self.hash_memo = {}
+        self.fp_memo = {}
+        self.fresh_mode = False
+        self._fresh_model = None
         self.divs = {}
         self.divq = {}
         self.approx = False
 
+    _COMM = None
+
+    def fp(self, term):
+        """structural fingerprint of a term that ignores the argument order of commutative operators
+        (z3.simplify orders them by AST id, which differs between re-executions of the same path)"""
+        if Engine._COMM is None:
+            Engine._COMM = {z3.Z3_OP_AND, z3.Z3_OP_OR, z3.Z3_OP_ADD, z3.Z3_OP_MUL, z3.Z3_OP_EQ, z3.Z3_OP_DISTINCT, z3.Z3_OP_IFF}
+        memo = self.fp_memo
+        stack = [(term, None)]
+        while stack:
+            t, kids = stack.pop()
+            i = t.get_id()
+            if i in memo:
+                continue
+            if kids is None:
+                if not z3.is_app(t):
+                    memo[i] = (t, hash(t.sexpr()))
+                    continue
+                kids = t.children()
+                if not kids:
+                    memo[i] = (t, hash(t.sexpr()))
+                    continue
+                stack.append((t, kids))
+                for c in kids:
+                    if c.get_id() not in memo:
+                        stack.append((c, None))
+                continue
+            hs = [memo[c.get_id()][1] for c in kids]
+            d = t.decl()
+            k = d.kind()
+            if k in Engine._COMM:
+                hs.sort()
+            memo[i] = (t, hash((k, d.name() if k == z3.Z3_OP_UNINTERPRETED else "", tuple(hs))))
+        return memo[term.get_id()][1]
+
+    def last_model(self):
+        return self._fresh_model if self._fresh_model is not None else self.solver.model()
+
     def _check(self, *assumptions):
         self.queries += 1
         t = time.perf_counter()
-        r = self.solver.check(*assumptions)
+        r = z3.unknown if self.fresh_mode else self.solver.check(*assumptions)
+        if r == z3.unknown:
+            # the incremental core gives up on some queries that a fresh solver (full preprocessing)
+            # decides at once; stay with fresh solvers for the rest of this path
+            self.fresh_mode = True
+            s2 = z3.Solver()
+            s2.set("timeout", 60000)
+            s2.add(*self.solver.assertions())
+            if assumptions:
+                s2.add(*assumptions)
+            r = s2.check()
+            if r == z3.sat:
+                self._fresh_model = s2.model()
+        else:
+            self._fresh_model = None
         self.solver_time += time.perf_counter() - t
         return r
 
@@ -135,7 +193,7 @@ class Engine:
             i = d[0][d[1]]
             # the re-execution must reach the same decision: a differing condition means the code
             # under test (or the harness) is not deterministic, and the recorded feasibility is void
-            if _len(d) > 3 and (i >= _len(options) or (fp if fp is not None else [o.hash() for o in options])[i] != d[3][i]):
+            if _len(d) > 3 and (i >= _len(options) or (fp if fp is not None else [self.fp(o) for o in options])[i] != d[3][i]):
                 raise Inconclusive("non-deterministic re-execution: decision %d differs from the recorded one" % self.pos)
         else:
             if self.pos >= self.max_decisions:
@@ -149,7 +207,7 @@ class Engine:
                     feas.append(i)
             if not feas:
                 raise Infeasible()
-            d = [feas, 0, payload, fp if fp is not None else [o.hash() for o in options]]
+            d = [feas, 0, payload, fp if fp is not None else [self.fp(o) for o in options]]
             self.decisions.append(d)
         i = d[0][d[1]]
         self.solver.add(options[i])
@@ -162,7 +220,7 @@ class Engine:
             d = self.decisions[self.pos]
             i = d[0][d[1]]
             c = make(i)
-            if _len(d) > 3 and (i >= _len(d[3]) or c.hash() != d[3][i]):
+            if _len(d) > 3 and (i >= _len(d[3]) or self.fp(c) != d[3][i]):
                 raise Inconclusive("non-deterministic re-execution: decision %d differs from the recorded one" % self.pos)
             self.solver.add(c)
             self.pos += 1
@@ -170,7 +228,7 @@ class Engine:
         return self.choose([make(i) for i in _range(n)])
 
     def branch(self, cond):
-        raw = cond.hash()  # fingerprint of the term as built (simplify's argument order is not stable)
+        raw = self.fp(cond)  # order-insensitive fingerprint (simplify's argument order is not stable)
         cond = z3.simplify(cond)
         if z3.is_true(cond):
             return True
@@ -218,11 +276,11 @@ class Engine:
             for lim in (16, 256, 4096, 60000):
                 r = self._check(*(ex + [z3.And(*[v <= lim for v in self.size_like])]))
                 if r == z3.sat:
-                    return self.solver.model()
+                    return self.last_model()
         r = self._check(*ex)
         if r != z3.sat:
             return None
-        return self.solver.model()
+        return self.last_model()
 
     def prove(self, cond):
         """None if cond holds on every input of this path, else a model"""
@@ -240,7 +298,7 @@ class Engine:
             raise Inconclusive("solver unknown on property assertion")
         if r == z3.unsat:
             return None
-        return self.model_for(z3.Not(cond)) or self.solver.model()
+        return self.model_for(z3.Not(cond)) or self.last_model()
 
     def fresh_name(self, base):
         self.fresh += 1
@@ -287,6 +345,8 @@ def _fn_table(m, fn, span):
 
 
 E = Engine()
+CONCRETE_PULLS = None  # predicate(term): TwinBuffer.pull_bytes enumerates such a symbolic length instead of carrying symbolic offsets
+UNIQUE_VIEWS = False  # TwinBuffer views: resolve symbolic offsets/lengths that the path pins to one value
 
 
 # --------------------------------------------------------------------------
@@ -783,10 +843,15 @@ def _sel_chain(i, vals):
     return r
 
 
-def concretize(s, cap=64):
+CONCRETIZE_CAP = 64
+
+
+def concretize(s, cap=None):
     """exhaustive value enumeration as a chain of decisions (value == v | value != v)"""
     if not _isinstance(s, SymInt):
         return s
+    if cap is None:
+        cap = CONCRETIZE_CAP
     v = z3.simplify(s.e)
     if z3.is_int_value(v):
         return v.as_long()
@@ -804,7 +869,7 @@ def concretize(s, cap=64):
             r = E._check()
             if r != z3.sat:
                 raise Inconclusive("solver %s during concretisation" % r)
-            val = E.solver.model().eval(s.e, model_completion=True).as_long()
+            val = E.last_model().eval(s.e, model_completion=True).as_long()
             feas = [0]
             r = E._check(s.e != val)
             if r == z3.unknown:
@@ -819,6 +884,26 @@ def concretize(s, cap=64):
             E.solver.add(s.e == val)
             return val
         E.solver.add(s.e != val)
+
+
+def unique_value(s):
+    """the single value s can take on this path, or None when several remain (no decision is recorded)"""
+    if not _isinstance(s, SymInt):
+        return s
+    v = z3.simplify(s.e)
+    if z3.is_int_value(v):
+        return v.as_long()
+    if E.mode != "sym":
+        return None
+    if E._check() != z3.sat:
+        return None
+    val = E.last_model().eval(s.e, model_completion=True)
+    if not z3.is_int_value(val):
+        return None
+    if E._check(s.e != val) != z3.unsat:
+        return None
+    E.solver.add(s.e == val)
+    return val.as_long()
 
 
 # --------------------------------------------------------------------------
